@@ -204,6 +204,7 @@ func (d *DiskQueue) skipToNextRWFile() error {
 	for i := d.readFileNum; i <= d.writeFileNum; i++ {
 		fn := d.fileName(i)
 		innerErr := os.Remove(fn)
+		d.verifCrashPoint("skip_remove")
 		if innerErr != nil && !os.IsNotExist(innerErr) {
 			log.Printf("ERROR: diskqueue(%s) failed to remove data file - %s", d.name, innerErr.Error())
 			err = innerErr
@@ -297,6 +298,7 @@ func (d *DiskQueue) writeOne(data []byte) error {
 		if err != nil {
 			return err
 		}
+		d.verifCrashPoint("w_open")
 
 		log.Printf("DISKQUEUE(%s): writeOne() opened %s", d.name, curFileName)
 
@@ -330,15 +332,18 @@ func (d *DiskQueue) writeOne(data []byte) error {
 		d.writeFile = nil
 		return err
 	}
+	d.verifCrashPoint("w_write")
 
 	totalBytes := int64(4 + dataLen)
 	d.writePos += totalBytes
 	atomic.AddInt64(&d.depth, 1)
+	d.verifCrashPoint("w_pos")
 
 	if d.writePos > d.maxBytesPerFile {
 		d.writeFileNum++
 		d.writePos = 0
 
+		d.verifCrashPoint("w_roll")
 		// sync every time we start writing to a new file
 		err = d.sync()
 		if err != nil {
@@ -363,6 +368,7 @@ func (d *DiskQueue) sync() error {
 			d.writeFile = nil
 			return err
 		}
+		d.verifCrashPoint("s_fsync")
 	}
 
 	err := d.persistMetaData()
@@ -414,6 +420,7 @@ func (d *DiskQueue) persistMetaData() error {
 	if err != nil {
 		return err
 	}
+	d.verifCrashPoint("m_tmp_create")
 
 	_, err = fmt.Fprintf(f, "%d\n%d,%d\n%d,%d\n",
 		atomic.LoadInt64(&d.depth),
@@ -425,8 +432,10 @@ func (d *DiskQueue) persistMetaData() error {
 	}
 	f.Sync()
 	f.Close()
+	d.verifCrashPoint("m_tmp_write")
 
 	// atomically rename
+	defer d.verifCrashPoint("m_rename")
 	return os.Rename(tmpFileName, fileName)
 }
 
@@ -471,6 +480,7 @@ func (d *DiskQueue) checkTailCorruption(depth int64) {
 }
 
 func (d *DiskQueue) moveForward() {
+	d.verifCrashPoint("take")
 	oldReadFileNum := d.readFileNum
 	d.readFileNum = d.nextReadFileNum
 	d.readPos = d.nextReadPos
@@ -483,6 +493,7 @@ func (d *DiskQueue) moveForward() {
 
 		fn := d.fileName(oldReadFileNum)
 		err := os.Remove(fn)
+		d.verifCrashPoint("r_remove")
 		if err != nil {
 			log.Printf("ERROR: failed to Remove(%s) - %s", fn, err.Error())
 		}
@@ -510,6 +521,7 @@ func (d *DiskQueue) handleReadError() {
 	log.Printf("NOTICE: diskqueue(%s) jump to next file and saving bad file as %s", d.name, badRenameFn)
 
 	err := os.Rename(badFn, badRenameFn)
+	d.verifCrashPoint("bad_rename")
 	if err != nil {
 		log.Printf("ERROR: diskqueue(%s) failed to rename bad diskqueue file %s to %s", d.name, badFn, badRenameFn)
 	}
